@@ -1,24 +1,40 @@
 ------------------------ MODULE PortSelectionCases ------------------------
 EXTENDS PortSelection
 
-CONSTANTS PNames, RNames, Side       \* Side: "provides" | "requires" | "both"
+CONSTANTS PNames, RNames, Side       \* Side: "provides" | "requires" | "both" | "presets"
 Unknown == "zz"
 
-VARIABLES prov, req, P, R, Inj, mc        \* mc: the provides port configured as multi-client, or ""
-vars == <<prov, req, P, R, Inj, mc>>
+VARIABLES prov, req, P, R, Inj, mc,       \* mc: the provides port configured as multi-client, or ""
+          preset                          \* name of the convenience function of dznpy.adv_shell the configuration is made with, or ""
+vars == <<prov, req, P, R, Inj, mc, preset>>
 
 PSCs(Names) == [sts : Selections(Names), mts : Selections(Names)]
 Fixed == [sts |-> Wild("ALL"), mts |-> Wild("NONE")]
 
+\* the predefined configurations of dznpy.adv_shell: what each helper promises in its name and docstring
+AllStsC == [sts |-> Wild("ALL"), mts |-> Wild("NONE")]
+AllMtsC == [sts |-> Wild("NONE"), mts |-> Wild("ALL")]
+FixedPresets == {"all_mts", "all_sts", "all_sts_all_mts", "all_mts_all_sts"}
+MixedPresets == {"all_mts_mixed_ts", "all_sts_mixed_ts"}
+WithMc       == {"all_mts", "all_mts_all_sts", "all_mts_mixed_ts"}
+PresetProv(n) == IF n \in {"all_mts", "all_mts_all_sts", "all_mts_mixed_ts"} THEN AllMtsC ELSE AllStsC
+PresetReq(n)  == IF n \in {"all_mts", "all_sts_all_mts"} THEN AllMtsC ELSE AllStsC
+
 Init ==
-  CASE Side = "provides" -> /\ P \in SUBSET PNames /\ prov \in PSCs(PNames \cup {Unknown, "r"}) /\ mc \in {"", "a"}
+  CASE Side = "presets" -> /\ preset \in FixedPresets \cup MixedPresets
+                           /\ P \in SUBSET PNames /\ prov = PresetProv(preset)
+                           /\ \E RI \in SUBSET RNames : \E I \in SUBSET RI : R = RI \ I /\ Inj = I
+                           /\ req \in (IF preset \in MixedPresets THEN PSCs(RNames \cup {Unknown}) ELSE {PresetReq(preset)})
+                           /\ mc \in (IF preset \in WithMc THEN {"", "a"} ELSE {""})
+    [] Side = "provides" -> /\ P \in SUBSET PNames /\ prov \in PSCs(PNames \cup {Unknown, "r"}) /\ mc \in {"", "a"}
                             /\ R \in {{}, {"r"}} /\ Inj = {} /\ req \in {Fixed, [sts |-> Wild("NONE"), mts |-> Wild("ALL")]}
+                            /\ preset = ""
     [] Side = "requires" -> /\ \E RI \in SUBSET RNames : \E I \in SUBSET RI : R = RI \ I /\ Inj = I
                             /\ req \in PSCs(RNames \cup {Unknown, "p"})
-                            /\ P \in {{}, {"p"}} /\ prov = Fixed /\ mc = ""
+                            /\ P \in {{}, {"p"}} /\ prov = Fixed /\ mc = "" /\ preset = ""
     [] Side = "both"     -> /\ P \in SUBSET PNames /\ prov \in PSCs(PNames \cup {Unknown})
                             /\ \E RI \in SUBSET RNames : \E I \in SUBSET RI : R = RI \ I /\ Inj = I
-                            /\ req \in PSCs(RNames \cup {Unknown}) /\ mc = ""
+                            /\ req \in PSCs(RNames \cup {Unknown}) /\ mc = "" /\ preset = ""
 Next == FALSE
 Spec == Init /\ [][Next]_vars
 
@@ -29,7 +45,7 @@ Law == C03Law(prov, req, P, R, Inj)
 McRejected == mc # "" /\ Outcome(prov, req, P, R, Inj).k = "assign" /\ (mc \notin P \/ Assignment(prov, req, P, R)[mc] # "MTS")
 VerdictMc == IF MustReject(prov, req, P, R, Inj) THEN "must-reject"
              ELSE IF McRejected THEN "either" ELSE Verdict(prov, req, P, R, Inj)
-Emit == PrintT(ToJson([prov |-> prov, req |-> req, P |-> P, R |-> R, Inj |-> Inj, mc |-> mc,
+Emit == PrintT(ToJson([prov |-> prov, req |-> req, P |-> P, R |-> R, Inj |-> Inj, mc |-> mc, preset |-> preset,
                        outcome |-> Outcome(prov, req, P, R, Inj), verdict |-> VerdictMc,
                        f |-> Assignment(prov, req, P, R)]))
 =============================================================================
